@@ -549,6 +549,17 @@ pub mod verif {
         }
     }
 
+    /// The `(key, type)` pairs a driver-owned fetcher currently has in flight / queued, for the
+    /// cfg-guarded read-only views of `SwarmDriver` (the fetcher type itself is crate-private).
+    pub(crate) fn inflight_and_queued_of(
+        fetcher: &ReplicationFetcher,
+    ) -> (Vec<(RecordKey, RecordType)>, Vec<(RecordKey, RecordType, PeerId)>) {
+        (
+            fetcher.on_going_fetches.keys().cloned().collect(),
+            fetcher.to_be_fetched.keys().cloned().collect(),
+        )
+    }
+
     /// Public wrapper around the crate-private `ReplicationFetcher`.
     pub struct Fetcher {
         inner: ReplicationFetcher,
